@@ -30,7 +30,7 @@ const PropertyInfo kInfo = {
     "identity+handshake frames itself as client or as server (wire view), two Nodes (PoW handshake, send_secure), or two threads sending concurrently to one "
     "raw peer whose reader starts late (the two sequences repeated for up to 240 sends, barrier before each common send; frames must be a shuffle of the two "
     "per-thread sequences); session key random / all-zero / all-0xFF. Each 4-byte record is one send: direction, payload size from "
-    "{0,1,63,64,65,4096,65536,2^20-1,2^20,2^20+1,2*2^20} or uniform <= 2048, gap before it {0 (burst),0.2,1,5,20 ms}; raw-peer frames are written whole, "
+    "{0,1,63,64,65,4096,65536,2^20-1,2^20,2^20+1,2*2^20} or uniform <= 2048, gap before it {0 (burst),0.2,1,5,20 ms} and, in one case in twenty, one idle gap of 2.3 s (thorough: also 5.5 s) on the established session; raw-peer frames are written whole, "
     "split inside the 16-byte header, or dribbled; a raw frame announcing a length above 1 MiB (2^20+1, 2^20+2, 2*2^20, 2^24, 2^31-1, 2^31, 2^32-1; header "
     "only or with the body) ends the sequence. Oracle (independent: the expected payload list kept by the harness + RFC 8439 ChaCha20 from refs): the "
     "receiver's handler gets exactly the payloads <= 1 MiB, once, in order, byte-identical, from the right peer (a sentinel message closes each direction so a "
@@ -38,7 +38,7 @@ const PropertyInfo kInfo = {
     "raw peer reads not one extra byte up to EOF; send(<= 1 MiB) on a working session returns true; every frame read by the raw peer is "
     "nonce(12)|be32(len)|ChaCha20(key,nonce,ctr 0,payload) with pairwise distinct nonces (handshake ACK frame included); after an oversized length the raw "
     "peer sees EOF/RST, is_connected is false at that instant and the handler was not called; a session that ends on its own (nobody closed it) while accepted "
-    "payloads are undelivered is a violation, a session that is up but slow (15 s) is inconclusive. Non-trivial: a size within +-1 of 1 MiB, or >= 3 sends "
+    "payloads are undelivered is a violation, a session that is up but slow (15 s) is inconclusive. Non-trivial: an idle gap above 2 s, a size within +-1 of 1 MiB, or >= 3 sends "
     "back-to-back in one direction, or an oversized raw frame. Distinct = hash of the decoded case."};
 
 namespace {
@@ -352,6 +352,13 @@ Case decode(Ctx& c) {
         unsigned gsel = (r.op() >> 1) & 7;
         op.gap_us = kGapUs[gsel];
         if (gsel == 7 && (r.op() & 0x10)) op.gap_us = 20000;
+        // send timings: one case in twenty leaves the established session idle for longer than the transport's own
+        // handshake / receive timeouts (2 s) before one of its sends (thorough tier: sometimes 5.5 s)
+        if (t.h(4) % 20 == 0 && i == 1 + t.h(5) % 5u) {
+            const char* tier = std::getenv("VERIF_TIER");
+            op.gap_us = (tier && std::string(tier) == "thorough" && (t.h(5) & 0x80)) ? 5'500'000u : 2'300'000u;
+            c.nt("idle_gap_over_2s");
+        }
         op.split = (r.op() >> 5) & 3;
         op.seed = r.seed();
         std::uint8_t sel = r.a(0);
@@ -440,6 +447,19 @@ bool do_send(Ctx& c, Link& l, const Bytes& payload, std::size_t index) {
     return false;
 }
 
+// Two SessionManagers / two Nodes, nobody has closed anything, nothing oversized was put on the wire: a send within the
+// limit was refused because the session is gone, i.e. the implementation ended it by itself while both ends were up.
+// The payload "sent to a connected peer" was not delivered.  When the case contains no long idle gap the loss may be
+// load-related (a slow handshake) and stays inconclusive; after a deliberate idle gap it is the timing the property
+// quantifies over ("all send timings").
+[[noreturn]] void session_lost(Ctx& c, const Case& k, const char* dir) {
+    bool idle = false;
+    for (auto& op : k.ops) if (op.gap_us >= 2'000'000u) idle = true;
+    if (!idle) throw Inconclusive{"inconclusive_session_lost"};
+    c.fail("C14:session-ended-on-its-own", std::string(dir) + ": after an idle gap on the established session a send within the limit was refused because the session no longer exists, "
+                                           "although neither end closed it and no oversized frame was sent");
+}
+
 // Wait until the handler has received everything that was accepted for sending.  Nobody has closed anything at this
 // point, so a receiving session that is gone ended by the implementation's own decision: once is_connected() is
 // false the reader thread has left its loop and the delivery count is final; payloads still missing then are lost.
@@ -522,7 +542,7 @@ void run_pair(Ctx& c, const Case& k) {
     }
     await_deliveries(c, in_b, exp_ab, k.id_a, "A->B", [&] { return b.is_connected(k.id_a); });
     await_deliveries(c, in_a, exp_ba, k.id_b, "B->A", [&] { return a.is_connected(k.id_b); });
-    if (ab.broken || ba.broken) throw Inconclusive{"inconclusive_session_lost"};
+    if (ab.broken || ba.broken) session_lost(c, k, ab.broken ? "A->B" : "B->A");
     // end the session from A; once B's reader has left, nothing more can be delivered: re-check for late duplicates
     a.stop();
     bool gone = wait_for([&] { return b.active_session_count() == 0; }, 3000);
@@ -799,7 +819,7 @@ void run_nodes(Ctx& c, const Case& k) {
     }
     await_deliveries(c, in_b, exp_ab, k.id_a, "nodeA->nodeB", [&] { return vnode::Access::sessions(b).is_connected(k.id_a); });
     await_deliveries(c, in_a, exp_ba, k.id_b, "nodeB->nodeA", [&] { return vnode::Access::sessions(a).is_connected(k.id_b); });
-    if (ab.broken || ba.broken) throw Inconclusive{"inconclusive_session_lost"};
+    if (ab.broken || ba.broken) session_lost(c, k, ab.broken ? "nodeA->nodeB" : "nodeB->nodeA");
     a.stop_transport();
     wait_for([&] { return vnode::Access::sessions(b).active_session_count() == 0; }, 3000);
     verify_prefix(c, in_b, exp_ab, k.id_a, "nodeA->nodeB");
